@@ -869,16 +869,38 @@ func runTAB03(p *Prog, r *RuleRun) {
 				}
 				addStart, mul4, subBase = true, true, true
 				// the 4-byte buffer read is what gets decoded as LE32
-				if sl, ok := c.Call.Args[0].(*ssa.Slice); ok {
-					if al, ok := sl.X.(*ssa.Alloc); ok {
-						if at, ok := al.Type().(*types.Pointer).Elem().Underlying().(*types.Array); ok && at.Len() == 4 {
-							for _, ref := range *al.Referrers() {
-								if s2, ok := ref.(*ssa.Slice); ok {
-									for _, r2 := range *s2.Referrers() {
-										if c2, ok := r2.(*ssa.Call); ok && eventName(c2) == "binary.littleEndian.Uint32" {
-											get32 = true
-										}
-									}
+				// (wherever that buffer lives: a local array, a make([]byte, 4), a scratch field - whether a shared
+				// scratch is safe is ACC-09's question, not this rule's)
+				bufBase := func(v ssa.Value) (ssa.Value, int64) {
+					n := int64(-1)
+					for i := 0; i < 4; i++ {
+						sl, ok := v.(*ssa.Slice)
+						if !ok {
+							break
+						}
+						v = sl.X
+					}
+					t := v.Type()
+					if pt, ok := t.Underlying().(*types.Pointer); ok {
+						t = pt.Elem()
+					}
+					if at, ok := t.Underlying().(*types.Array); ok {
+						n = at.Len()
+					}
+					if ms, ok := v.(*ssa.MakeSlice); ok {
+						if cl, ok := ms.Len.(*ssa.Const); ok {
+							n = cl.Int64()
+						}
+					}
+					return v, n
+				}
+				rb, rn := bufBase(c.Call.Args[0])
+				if rn == 4 || rn == -1 {
+					for _, b2 := range fn.Blocks {
+						for _, i2 := range b2.Instrs {
+							if c2, ok := i2.(*ssa.Call); ok && eventName(c2) == "binary.littleEndian.Uint32" && len(c2.Call.Args) > 0 {
+								if db, _ := bufBase(c2.Call.Args[len(c2.Call.Args)-1]); db == rb || sameExpr(db, rb, 0) {
+									get32 = true
 								}
 							}
 						}
